@@ -62,8 +62,12 @@ WHAT = {
 }
 
 
-def mt(m: int) -> int:
-    return T0 + 1000 * m
+MT_STEP = 0.25   # model mtimes are a quarter of a second apart: all inside one or two wall-clock seconds, so
+                 # a hash that rounds or truncates the mtime cannot tell them apart (exact in binary floating point)
+
+
+def mt(m: int) -> float:
+    return T0 + MT_STEP * m
 
 
 def tla_set(xs) -> str:
@@ -153,7 +157,7 @@ class World:
             return {"ex": False, "bytes": 0, "mtime": -1}
         data = open(p).read()
         st = os.stat(p)
-        m = (st.st_mtime - T0) / 1000
+        m = (st.st_mtime - T0) / MT_STEP
         return {"ex": True, "bytes": CONTENT_ID.get(data, -9), "mtime": int(m) if m == int(m) else m}
 
     def env_set(self, t, b: int, m: int) -> None:
